@@ -531,6 +531,27 @@ func init() {
 			}
 			return iface{}
 		},
+		"encoding/json.NewDecoder": func(i *interpreter, fr *frame, a []value) value {
+			if i.ps.jsonDecode == nil {
+				return notHandled{}
+			}
+			i.ps.jsonReader = a[0]
+			return zeroPtrOf(types.NewPointer(i.prog.ImportedPackage("encoding/json").Type("Decoder").Type()))
+		},
+		"(*encoding/json.Decoder).Decode": func(i *interpreter, fr *frame, a []value) value {
+			if i.ps.jsonDecode == nil {
+				return notHandled{}
+			}
+			// the harness's reference decoder stands in for encoding/json (assumed to follow RFC 8259
+			// and its documentation); its result has the destination's type
+			r := call(i, fr, token.NoPos, i.ps.jsonDecode, []value{i.ps.jsonReader}).(tuple)
+			if e := r[1].(iface); e.t != nil {
+				return e
+			}
+			dst := a[1].(iface).v.(*value)
+			i.writeCell(dst, r[0].(iface).v)
+			return iface{}
+		},
 		"unicode.ToUpper": func(i *interpreter, fr *frame, a []value) value { return i.caseModel(a[0], true) },
 		"unicode.ToLower": func(i *interpreter, fr *frame, a []value) value { return i.caseModel(a[0], false) },
 		"regexp.QuoteMeta": func(i *interpreter, fr *frame, a []value) value {
@@ -1025,6 +1046,14 @@ func (i *interpreter) parseFloatModel(s, bits value) (value, value) {
 	w, ok := i.parseModel('f', s)
 	if w != nil && i.branch(ok) {
 		return i.mk(i.tb.FFromBits(w), types.Float64), iface{}
+	}
+	// the decimal text of an integer is also the text of a float: the equal-valued one
+	// (exact below 2^53, else the nearest float, as strconv rounds)
+	if wi, oki := i.parseModel('i', s); wi != nil && i.branch(oki) {
+		if sv, isSym := i.mk(wi, types.Int).(*Sym); isSym {
+			return i.symConv(types.Float64, sv), iface{}
+		}
+		return float64(int64(wi.V)), iface{}
 	}
 	return 0.0, iface{errorType, "strconv.ParseFloat: parsing symbolic text: invalid syntax"}
 }
